@@ -644,14 +644,24 @@ example : ∀ o, Spec.toObj (.runIf .even [.call .inc]) = .ok o → PreKind o :=
 `driveSeq`, `driveFill`, `driveSplit` are the functions the model driver evaluates and the harness compares with
 the real `Sequence`, `FillComputeSeq` and `Split` on every generated case. -/
 
+/-- any generator of the form `for v in flow: yield from g(v)` keeps the `_can_break_flow` contract -/
+theorem bindS_breaksFlow (g : α → Strm α) : BreaksFlow (fun s => .ok (bindS g s)) := by
+  intro s
+  simp only [bindS, observe, Except.ok.injEq]
+  congr 1
+  funext v
+  simp only [Strm.ofList, bindGo]
+  exact (Strm.andThen_nil _).symm
+
 /-- element descriptions of the property's pre-processing kinds: callable, `Variable`, `Filter`, `Slice` with
-non-negative arguments (a valid step), `RunIf` -/
+non-negative arguments (a valid step), `RunIf` (and `dup`, another Run element that can break the flow) -/
 def Spec.InScope : Spec → Prop
   | .call _ => True
   | .var _ _ => True
   | .filter _ => True
   | .slice a b s => ∃ a' b' st, Lena.C17.mkSlice a b s = .islice a' b' st
   | .runIf _ _ => True
+  | .dup => True
   | _ => False
 
 theorem inScopeB_iff (s : Spec) : s.inScopeB = true ↔ s.InScope := by
@@ -740,6 +750,15 @@ theorem spec_preKind (s : Spec) (hs : s.InScope) (o : Obj) (ho : s.toObj = .ok o
   | junk => cases hs
   | setContext => cases hs
   | runIfBad _ => cases hs
+  | dup =>
+    simp only [Spec.toObj, Except.ok.injEq] at ho
+    subst ho
+    refine ⟨.canBreakFlow rfl rfl rfl rfl, rfl, rfl, ?_⟩
+    intro p' hp
+    change Except.ok (Pre.runEl (fun s => Except.ok (bindS (fun v => Strm.ofList [v, Value.list [v]]) s)))
+      = Except.ok p' at hp
+    cases hp
+    exact bindS_breaksFlow _
 
 theorem toObjs_append : ∀ (a b : List Spec) (os : List Obj), Spec.toObjs (a ++ b) = .ok os →
     ∃ oa ob, Spec.toObjs a = .ok oa ∧ Spec.toObjs b = .ok ob ∧ os = oa ++ ob
@@ -1293,5 +1312,16 @@ example : ∀ c ∈ exInner, ∃ st, fillAllChain c [1, 2] = .ok st := by
   intro c hc
   simp only [exInner, List.mem_cons, List.not_mem_nil, or_false] at hc
   rcases hc with rfl | rfl <;> exact ⟨_, rfl⟩
+
+/-! ### elements without data (`_has_no_data`, e.g. `SetContext`) -/
+
+theorem dataSeq_idem (args : List Obj) : dataSeq (dataSeq args) = dataSeq args := by
+  simp [dataSeq, List.filter_filter]
+
+/-- **elements with `_has_no_data` are invisible to both constructors**: `Sequence` and `FillComputeSeq` built from
+`args` are the ones built from the data elements of `args` — such elements may stand anywhere in a chain -/
+theorem nodata_dropped (args : List Obj) :
+    mkSequence args = mkSequence (dataSeq args) ∧ mkFillComputeSeq args = mkFillComputeSeq (dataSeq args) := by
+  simp only [mkSequence, mkFillComputeSeq, dataSeq_idem, and_self]
 
 end Lena.C05
